@@ -22,10 +22,12 @@ EntryPoints == {"json_object", "json_array_split", "json_array_i128", "json_arra
 ByteClasses == {"nul", "del", "x80", "xc3", "xff", "quote", "backslash", "lbracket", "lbrace", "rbracket", "rbrace", "comma", "colon",
                 "minus", "e", "dot", "cr", "lf", "space", "percent", "equals", "slash", "digit9", "letter",
                 "utf8_2", "utf8_3", "utf8_4"}           \* well-formed 2-, 3- and 4-byte characters
+NSpecialNumbers == 24        \* the harness's table of boundary values: 0, 1, 2^7, 2^8, 2^15, 2^16, 2^31, 2^32, 2^63, 2^64, 2^127, 2^128 (each -1, +0), negatives, leading zeros, 1e400 ...
 Positions == {0, 1, 5, 10, 25, 33, 50, 66, 75, 90, 95, 99, 1000}       \* per-mille of the seed length (1000 = at the end)
 Ops == {"identity", "truncate", "flip", "insert", "delete", "duplicate_tail", "nest", "long_line", "repeat_delim",
         "eol", "eol_truncate",
-        "repeat_seed", "repeat_head"}   \* the whole seed / its first at-percent repeated n times: many parts, lines, elements      \* every CRLF of the seed replaced by the class byte (LF-only / CR-only documents), then cut
+        "repeat_seed", "repeat_head",
+        "number", "numbers"}          \* a digit run of the seed (each in turn / all at once) replaced by the at-th special number   \* the whole seed / its first at-percent repeated n times: many parts, lines, elements      \* every CRLF of the seed replaced by the class byte (LF-only / CR-only documents), then cut
 
 \* the abstract mutation space of one entry point with nseeds seed documents
 Mutations(ep, nseeds) ==
@@ -35,6 +37,7 @@ Mutations(ep, nseeds) ==
     \cup {[ep |-> ep, seed |-> s, op |-> o, at |-> p, cls |-> c, all |-> FALSE] : s \in 1..nseeds, o \in {"flip", "insert"}, p \in Positions, c \in ByteClasses}
     \cup {[ep |-> ep, seed |-> s, op |-> o, at |-> p, cls |-> "letter", all |-> FALSE] : s \in 1..nseeds, o \in {"delete", "duplicate_tail"}, p \in Positions}
     \cup {[ep |-> ep, seed |-> s, op |-> "eol", at |-> 0, cls |-> c, all |-> FALSE] : s \in 1..nseeds, c \in {"lf", "cr", "space", "nul"}}
+    \cup {[ep |-> ep, seed |-> s, op |-> o, at |-> k, cls |-> "digit9", all |-> (o = "number")] : s \in 1..nseeds, o \in {"number", "numbers"}, k \in 1..NSpecialNumbers}
     \cup {[ep |-> ep, seed |-> s, op |-> "repeat_seed", at |-> n, cls |-> "letter", all |-> FALSE] : s \in 1..nseeds, n \in {3, 100, 1000}}
     \cup {[ep |-> ep, seed |-> s, op |-> "repeat_head", at |-> n, cls |-> c, all |-> FALSE] : s \in 1..nseeds, n \in {100, 1000}, c \in {"digit9", "letter", "e"}}
     \cup {[ep |-> ep, seed |-> s, op |-> "eol_truncate", at |-> 0, cls |-> c, all |-> TRUE] : s \in 1..nseeds, c \in {"lf", "cr"}}
